@@ -468,7 +468,7 @@ def check_own_closing_flag(eng, run):
     fails (RST), while complete requests are still buffered and must be delivered first"""
     n = 0
     for ci in eng.db.classes.values():
-        if not ci.module.name.endswith("_asyncio.stream.socket"):
+        if not (ci.module.name.endswith("_asyncio.stream.socket") or ci.module.name.endswith("servers.async_tcp")):  # (and the server-side client API: the restart loop of the handler asks it)
             continue
         fn = ci.find_method("is_closing")
         if fn is None or ci.find_method("aclose") is None or fn.cls is not ci:
@@ -480,7 +480,9 @@ def check_own_closing_flag(eng, run):
         # the flags are raised only by the class' own close paths
         setters = {m.name for m in ci.methods.values() for st in own_nodes(m.node) if isinstance(st, (ast.Assign, ast.AnnAssign)) and isinstance(getattr(st, "value", None), ast.Constant) and st.value.value is True
                    for t in (st.targets if isinstance(st, ast.Assign) else [st.target]) if isinstance(t, ast.Attribute) and t.attr in flags}
-        ok = bool(rets) and not calls and bool(flags) and setters <= {"aclose", "close", "__del__", "abort"}
+        from sa.norm import referenced_only_from
+        close_paths = {"aclose", "close", "__del__", "abort", "_on_disconnect"}
+        ok = bool(rets) and not calls and bool(flags) and all(referenced_only_from(ci, sname, close_paths) for sname in setters)  # (a private step of aclose() counts as aclose())
         if not ok:
             run.finding("C15.conn", fn, rets[0] if rets else fn.node, "is_closing() of the asyncio stream transport no longer answers from the adapter's own flag alone (it consults the asyncio transport / a flag raised "
                         "outside the close paths): after a connection reset the request loop stops although complete requests are still buffered - they never reach the handler")
@@ -535,6 +537,9 @@ def run(eng, run):
     run.attempt(c10.check_parser, eng, run, rule="C15.recv", dead_only=True)
     run.attempt(c01.check_ws, eng, RuleAlias(run, "C15.recv"))
     run.attempt(c06.check_escape, eng, RuleAlias(run, "C15.recv"), EscapeSummaries(eng))
+    from rules import c03 as _c03h
+    from sa.report import RuleAlias as _RA15h
+    run.attempt(_c03h.check_half_close, eng, _RA15h(run, "C15.recv"))  # the peer's FIN must not make asyncio close the transport: requests already buffered are still owed to the handler
     run.end_of_rules()
 
 
